@@ -22,11 +22,21 @@ Inductive xml :=
    text that precedes the first child *)
 Inductive velem := VE (tag : qname) (attrs : list (string * aval)) (text : option aval) (kids : list velem).
 
+(* whitespace-only character data *)
+Fixpoint blank_string (s : string) : bool :=
+  match s with
+  | EmptyString => true
+  | String c r => (let n := Ascii.nat_of_ascii c in Nat.eqb n 32 || Nat.eqb n 10 || Nat.eqb n 9 || Nat.eqb n 13)%bool && blank_string r
+  end.
+Definition is_blank (a : aval) : bool := match a with AS s => blank_string s | _ => false end.
+Definition is_deco (x : xml) : bool := match x with Comment _ => true | Text a => is_blank a | Elem _ _ _ => false end.
+
 Fixpoint view (x : xml) : option velem :=
   match x with
   | Elem tag attrs children =>
       Some (VE tag attrs
-               (match children with Text s :: _ => Some s | _ => None end)
+               (* .text: the character data before the first child; the readers never look at whitespace-only text *)
+               (match children with Text s :: _ => if is_blank s then None else Some s | _ => None end)
                ((fix go (l : list xml) : list velem :=
                    match l with
                    | [] => []
